@@ -382,6 +382,7 @@ class CState:
         self.env = {}       # current frame: locals by name, struct members by `obj.member` / `ptr->member` text
         self.mem = {}       # arrays: base -> list of octets (element size 1) or of typed values; None = never written
         self.esz = {}       # base -> element size
+        self.recs = set()   # bases whose elements are struct objects ({member: value} per element)
         self.faults = []    # ("undef" | "oob", base, offset)
         self.steps = 0
         self.depth = 0
@@ -396,6 +397,58 @@ class CMach:
         self._x, self._s, self._loc, self._tabs, self._inert = {}, {}, {}, {}, {}
 
     # -- memory -----------------------------------------------------------------------------
+    def tsz(self, qt):
+        """size of an object type; struct types by the natural-alignment layout of the translation unit's target
+        (x86-64 host build); None for unions, bit-fields, packed records and unresolved member types"""
+        s = _tsize(qt)
+        if s is None and _clean(qt).startswith("struct "):
+            s = (self._layout(_clean(qt), 0) or (None,))[0]
+        return s
+
+    def _layout(self, q, depth):
+        if q.endswith("*"):
+            return 8, 8
+        ext = array_extent(q) if q.endswith("]") else None
+        if ext is not None:
+            la = self._layout(_pointee(q) or "", depth)
+            return la and (la[0] * ext, la[1])
+        if not q.startswith("struct "):
+            s = _tsize(q)
+            return s and (s, s)
+        r = self.tu.records.get(q[len("struct "):])
+        if r is None or depth > 4 or r.get("tagUsed") != "struct" or any(kind(c).endswith("Attr") for c in kids(r)):
+            return None
+        off, al = 0, 1
+        for c in kids(r):
+            if kind(c) != "FieldDecl":
+                continue
+            la = None if c.get("isBitfield") else self._layout(_clean(_qt(c)), depth + 1)
+            if not la:
+                return None
+            off = -(-off // la[1]) * la[1] + la[0]
+            al = max(al, la[1])
+        return (-(-off // al) * al, al) if off else None
+
+    def elem(self, st, p):
+        """the struct object a pointer into an array of structs designates: {member: value}"""
+        if not _isptr(p) or p[1] not in st.recs:
+            return None
+        m = st.mem.get(p[1])
+        if m is None or not 0 <= p[2] < len(m):
+            if m is not None:
+                st.faults.append(("oob", p[1], p[2]))
+            return None
+        if not isinstance(m[p[2]], dict):
+            m[p[2]] = {}
+        return m[p[2]]
+
+    def fields(self, st, v):
+        """member reader of the struct object at address v (`&obj`, or a pointer into an array of structs)"""
+        if type(v) is tuple and v and v[0] == "ref":
+            return lambda f: v[2].get("%s.%s" % (v[1], f))
+        d = self.elem(st, v)
+        return None if d is None else d.get
+
     def table(self, name):
         """file-scope const array with an initialiser list: its typed values"""
         if name not in self._tabs:
@@ -454,6 +507,8 @@ class CMach:
         v = m[off]
         if v is _UNKNOWN:
             return None
+        if isinstance(v, dict):
+            return ("struct", dict(v))
         if v is None:
             st.faults.append(("undef", base, off))
             v = 0
@@ -479,7 +534,9 @@ class CMach:
                     self.store(st, ("ptr", base, off + i), (v >> (8 * i)) & 0xff if isinstance(v, int) else None, None, 1)
                 return
             raise AnalysisError("C evaluation: %d-octet store into %s (element size %d) is not modelled" % (size or 0, base, st.esz[base]))
-        if not isinstance(v, int):
+        if base in st.recs:
+            m[off] = dict(v[1]) if (isinstance(v, tuple) and v and v[0] == "struct") else _UNKNOWN
+        elif not isinstance(v, int):
             m[off] = _UNKNOWN          # written, but with a value the evaluation does not determine
         else:
             m[off] = (v & 0xff) if size == 1 else (w(v) if w else v)
@@ -561,6 +618,9 @@ class CMach:
                     b = fb(st)
                     if isinstance(b, tuple) and b[0] == "ref":
                         return ("env", b[2], "%s.%s" % (b[1], fld))
+                    d = self.elem(st, b)
+                    if d is not None:
+                        return ("env", d, fld)
                     return ("env", st.env, txt)
                 return f
             lb = self.LOC(base)
@@ -569,12 +629,15 @@ class CMach:
                 l_ = lb(st)
                 if l_ is not None and l_[0] == "env":
                     return ("env", l_[1], "%s.%s" % (l_[2], fld))
+                d = self.elem(st, l_[1]) if l_ is not None else None
+                if d is not None:
+                    return ("env", d, fld)
                 return ("env", st.env, txt)
             return f
         if k == "ArraySubscriptExpr":
             a, b = kids(n)
             fa, fb = self.X(a), self.X(b)
-            ps = _tsize(_qt(n))
+            ps = self.tsz(_qt(n))
 
             def f(st):
                 p, i = fa(st), fb(st)
@@ -606,8 +669,12 @@ class CMach:
             except AnalysisError:
                 return lambda st: None
 
+            ssz = self.tsz(_qt(n))
+
             def gs(st):
                 l_ = loc(st)
+                if l_ is not None and l_[0] == "mem" and _isptr(l_[1]) and l_[1][1] in st.recs:
+                    return self.load(st, l_[1], None, ssz)
                 if l_ is None or l_[0] != "env":
                     return None
                 return ("struct", {f_: l_[1].get("%s.%s" % (l_[2], f_)) for f_ in fnames})
@@ -675,7 +742,7 @@ class CMach:
         """(locate(st) -> l, read(st, l) -> value, write(st, l, v) -> value stored): an lvalue is located exactly once
         per evaluation (its sub-expressions may have side effects: `*p++ = x`, `burst[k++] = s`)"""
         loc = self.LOC(n)
-        w, size = _wrapper(_qt(n)), _tsize(_qt(n))
+        w, size = _wrapper(_qt(n)), self.tsz(_qt(n))
         cv = self.tu.fold(n) if kind(n) == "DeclRefExpr" else None
 
         def read(st, l_):
@@ -761,6 +828,9 @@ class CMach:
             return self._getter(n)
         if k == "UnaryExprOrTypeTraitExpr":
             v = self.tu.fold(n)
+            if v is None and n.get("name") == "sizeof":      # struct objects and arrays of them
+                t = (n.get("argType") or (strip(ks[0]).get("type") if ks else None) or {})
+                v = self.tsz(t.get("desugaredQualType") or t.get("qualType") or "")
             return lambda st: v
         if k == "UnaryOperator":
             op = n.get("opcode")
@@ -779,7 +849,7 @@ class CMach:
                 loc, rd, wr = self._lvalue(ks[0])
                 d = 1 if op == "++" else -1
                 post = n.get("isPostfix")
-                ps = _tsize(_pointee(_qt(n)) or "") if _clean(_qt(n)).endswith("*") else None
+                ps = self.tsz(_pointee(_qt(n)) or "") if _clean(_qt(n)).endswith("*") else None
 
                 def f(st):
                     l_ = loc(st)
@@ -811,7 +881,7 @@ class CMach:
             fr = self.X(ks[1])
             ct = (n.get("computeResultType") or {})
             wc = _wrapper(ct.get("desugaredQualType") or ct.get("qualType") or "")
-            ps = _tsize(_pointee(_qt(ks[0])) or "") if _clean(_qt(ks[0])).endswith("*") else None
+            ps = self.tsz(_pointee(_qt(ks[0])) or "") if _clean(_qt(ks[0])).endswith("*") else None
 
             def f(st):
                 l_ = loc(st)
@@ -880,8 +950,8 @@ class CMach:
                 return None if x is None or y is None else 0
             return f
         w = _wrapper(_qt(n))
-        psa = _tsize(_pointee(_qt(a)) or "") if _clean(_qt(a)).endswith("*") else None
-        psb = _tsize(_pointee(_qt(b)) or "") if _clean(_qt(b)).endswith("*") else None
+        psa = self.tsz(_pointee(_qt(a)) or "") if _clean(_qt(a)).endswith("*") else None
+        psb = self.tsz(_pointee(_qt(b)) or "") if _clean(_qt(b)).endswith("*") else None
 
         cmpop = op in ("<", ">", "<=", ">=", "==", "!=")
         fast = _FAST.get(op)
@@ -1066,8 +1136,35 @@ class CMach:
                 init = kids(d)[-1] if kids(d) else None
                 if _clean(qt).endswith("]"):
                     ext, el = array_extent(qt), _pointee(_qt(d))
-                    esz, w = _tsize(el or ""), _wrapper(el or "")
+                    esz, w = self.tsz(el or ""), _wrapper(el or "")
                     ivals = None
+                    if _clean(el or "").startswith("struct ") and not _clean(el).endswith("*"):
+                        # an array of struct objects: one {member: value} per element (None: never written)
+                        parts = None
+                        if init is not None:
+                            il = strip(init)
+                            els = il.get("array_filler") if kind(il) == "InitListExpr" else None
+                            els = [c for c in els[1:] if c] if els else (kids(il) if kind(il) == "InitListExpr" else None)
+                            if els is not None and all(kind(strip(c)) in ("InitListExpr", "ImplicitValueInitExpr") for c in els):
+                                parts = [self._struct_value(strip(c), el) if kind(strip(c)) == "InitListExpr" else None for c in els]
+
+                        def act(st, name=name, ext=ext, esz=esz, parts=parts, has_init=init is not None):
+                            key = name if st.depth == 0 else "%s@%d" % (name, st.depth)
+                            st.recs.discard(key)
+                            if ext is None or esz is None or (has_init and parts is None):
+                                st.mem.pop(key, None)
+                                return
+                            vals = [None] * ext
+                            if parts is not None:
+                                for i in range(ext):
+                                    v = parts[i](st) if i < len(parts) and parts[i] is not None else None
+                                    vals[i] = dict(v[1]) if v else {}
+                                    if v is None and i < len(parts) and parts[i] is not None:
+                                        vals[i] = _UNKNOWN
+                            st.mem[key], st.esz[key] = vals, esz
+                            st.recs.add(key)
+                        acts.append(act)
+                        continue
                     if init is not None and kind(strip(init)) == "InitListExpr":
                         ivals = _init_elems(self.tu, strip(init))
                         if ivals is None:
@@ -1421,9 +1518,44 @@ def _tx_hooks():
             st.out["ext"] = len(st.mem[p[1]]) - p[2]
             return ln
         return h
+
+    def h_sendmsg(M, st, a, n, who="trx_if_handle_phyif_burst_req: sendmsg with "):
+        """sendmsg(fd, &msg, flags): ONE datagram - the iov_len octets at iov_base of each of the msg_iovlen elements of
+        msg_iov, in order (gather output); it counts as the datagram of the burst request like send() / write()"""
+        mh = M.fields(st, a[1]) if len(a) > 1 else None
+        if mh is None:
+            raise AnalysisError(who + "an undetermined message header")
+        iov, cnt = mh("msg_iov"), mh("msg_iovlen")
+        if any(mh(f) not in (None, 0) for f in ("msg_name", "msg_control")):
+            raise AnalysisError(who + "a destination address or ancillary data is not modelled")
+        return gather(M, st, iov, cnt, who)
+
+    def h_writev(M, st, a, n):
+        """writev(fd, iov, iovcnt): on a datagram socket one datagram gathered from the iovcnt elements"""
+        return gather(M, st, a[1] if len(a) > 1 else None, a[2] if len(a) > 2 else None, "trx_if_handle_phyif_burst_req: writev with ")
+
+    def gather(M, st, iov, cnt, who):
+        if not _isptr(iov) or iov[1] not in st.recs or not isinstance(cnt, int) or not 0 <= cnt <= 64:
+            raise AnalysisError(who + "an undetermined iovec array / element count")
+        octs, room = [], 0
+        for i in range(cnt):
+            el = M.fields(st, M.padd(st, iov, i, st.esz[iov[1]]))
+            if el is None:
+                raise AnalysisError(who + "an element count beyond the iovec array")
+            p, ln = el("iov_base"), el("iov_len")
+            if ln == 0:
+                continue
+            o = M.octets(st, p, ln) if isinstance(ln, int) and 0 < ln <= 8192 else None
+            if o is None:
+                raise AnalysisError(who + "an undetermined iov_base / iov_len in element %d" % i)
+            octs += o
+            room += len(st.mem[p[1]]) - p[2]
+        st.out.setdefault("sent", []).append(octs)
+        st.out["ext"] = room          # octets the storage the datagram is gathered from can hold
+        return len(octs)
     return {**_SWAPS, "osmo_store32be": h_store(4, True), "osmo_store16be": h_store(2, True), "osmo_store32le": h_store(4, False),
             "osmo_store16le": h_store(2, False), "memcpy": h_memcpy, "memmove": h_memcpy, "memset": h_memset,
-            "send": h_send(1, 2), "sendto": h_send(1, 2), "write": h_send(1, 2)}
+            "send": h_send(1, 2), "sendto": h_send(1, 2), "write": h_send(1, 2), "sendmsg": h_sendmsg, "writev": h_writev}
 
 
 def _rx_model(spec, us2s):
@@ -1621,6 +1753,12 @@ def trxcon_rx_semantic(L, repo, spec, us2s, tier, tu, fsm=None):
 
 
 def trxcon_tx_semantic(L, repo, spec, tier, tu):
+    """C04.R3 decides the clause `a Tx burst request leaves trxcon as ONE TRXDv0 datagram tn | FN big-endian | attenuation |
+    hard bits`: the function is evaluated on witness requests and what the send call puts on the wire is compared with the
+    reference layout.  The wire content is the buffer of send()/sendto()/write() or, for sendmsg(), the concatenation of
+    the iovec elements (gather output) - how the octets were brought together (one stack buffer + memcpy, header array +
+    the caller's hard bits) is not part of the decision.  C04.R4 (transmit side): the storage the LARGEST datagram is
+    sent from holds header + the largest burst."""
     FC = tu.rel
     f2 = tu.func("trx_if_handle_phyif_burst_req")
     L.fn(FC, "trx_if_handle_phyif_burst_req")
@@ -1641,7 +1779,7 @@ def trxcon_tx_semantic(L, repo, spec, tier, tu):
     H = H_FRAMES
     bad, faults, nsent = [], [], []
     cnt = [0]
-    exts = set()
+    exts = {}
 
     def one(tn, fn, pwr, bits):
         st = CState()
@@ -1657,7 +1795,7 @@ def trxcon_tx_semantic(L, repo, spec, tier, tu):
         exp += list(bits)
         sent = st.out.get("sent") or []
         if "ext" in st.out:
-            exts.add(st.out["ext"])
+            exts.setdefault(len(bits), set()).add(st.out["ext"])
         if any(x is _UNKNOWN for o_ in sent for x in o_):
             raise AnalysisError("trx_if_handle_phyif_burst_req: the evaluation does not determine every octet that is sent")
         if len(sent) != 1:
@@ -1688,7 +1826,7 @@ def trxcon_tx_semantic(L, repo, spec, tier, tu):
          [], bad[:4], not bad, line)
     L.ob(R, FC, fn_, "no octet that was never written is sent and no access leaves the buffers", [], faults[:4], not faults, line)
     largest_tx = hl + max(lens)
-    ext2 = min(exts) if exts else None
+    ext2 = min(exts[max(lens)]) if exts.get(max(lens)) else None     # the storage the largest datagram is sent from
     L.ob("C04.R4", FC, fn_, "trxcon's transmit buffer holds header + the largest burst (%d)" % largest_tx,
          ">= %d" % largest_tx, ext2, ext2 is not None and ext2 >= largest_tx)
     L.extra["c04_tx_runs"] = cnt[0]
@@ -1932,7 +2070,7 @@ def r6_burst_storage(L, repo, spec, tier, tu, fsm=None):
         return None
     hooks = dict(_tx_hooks())
     hooks.update(_rx_hooks(names, dict(flds)))
-    hooks.update({"send": quiet_send, "sendto": quiet_send, "write": quiet_send})
+    hooks.update({"send": quiet_send, "sendto": quiet_send, "write": quiet_send, "sendmsg": lambda M, st, a, n: None, "writev": lambda M, st, a, n: None})
     M = CMach(tu, hooks)
     M.watch = ("trxcon_phyif_burst_ind", "trxcon_phyif_burst_req")
     M.ext = ext
